@@ -62,6 +62,7 @@ type Prog struct {
 	wrapMemo        map[*ssa.Function]*wrapInfo
 	names           map[string]string
 	evHelper        map[*ssa.Function]int
+	mapMemo         map[ssa.Value]*ssa.BasicBlock
 }
 
 // Load type-checks and builds SSA for the three library packages and all
